@@ -171,16 +171,31 @@ def gen_disk_every_file(rng):
     return {"kind": "disk", "max": None, "pool": pool, "coords": [], "ops": ops}
 
 
+def resplit(rng, c):
+    """same concatenation namespace||schema_hash_hex||artifact_hash_hex, other field boundaries (fields may become
+    empty); SemanticBlobCoordinate has public fields and validates nothing, so every split is a legal coordinate"""
+    cat = c[0] + c[1] + c[2]
+    for _ in range(8):
+        i = rng.randint(0, len(cat)); j = rng.randint(i, len(cat))
+        if rng.random() < 0.3:
+            i = rng.choice([0, len(c[0])]); j = rng.choice([i, len(cat)])
+        n = [cat[:i], cat[i:j], cat[j:], c[3], c[4]]
+        if n[:3] != c[:3]:
+            return n
+    return [cat, "", "", c[3], c[4]] if c[1] or c[2] else ["", cat, "", c[3], c[4]]
+
+
 def gen_coords(rng):
-    ns = ["app", "app/", "ap", "écho", ""]
-    sc = ["aa", "ab", "AA"]
-    ar = ["01", "02"]
+    h64 = "0123456789abcdef" * 4
+    ns = ["app", "app/", "ap", "écho", "", "abcd", "abc"]
+    sc = ["aa", "ab", "AA", "", "ef01", "def01", h64]
+    ar = ["01", "02", "", h64, h64[:63]]
     dg = [0, 1, 1 << 255, (1 << 256) - 1, rng.getrandbits(256)]
     base = [rng.choice(ns), rng.choice(sc), rng.choice(ar), rng.randrange(6), rng.choice(dg)]
     out = [list(base)]
     for _ in range(rng.randint(1, 4)):
         c = list(rng.choice(out))
-        f = rng.randrange(6)
+        f = rng.randrange(9)
         if f == 0:
             c[0] = rng.choice(ns)
         elif f == 1:
@@ -188,9 +203,11 @@ def gen_coords(rng):
         elif f == 2:
             c[2] = rng.choice(ar)
         elif f == 3:
-            c[3] = rng.randrange(6)
+            c[3] = rng.randrange(6)                    # differs only in role
         elif f == 4:
-            c[4] = rng.choice(dg)
+            c[4] = rng.choice(dg)                      # differs only in semantic_digest
+        elif f >= 6:
+            c = resplit(rng, c)                        # differs only in where the string fields end
         out.append(c)                                  # f == 5: an equal coordinate under another index
     return [f"{hx(c[0].encode())}/{hx(c[1].encode())}/{hx(c[2].encode())}/{c[3]}/{vf.hex32(c[4])}" for c in out]
 
